@@ -1118,6 +1118,16 @@ func (data *Data) UserPrivilege(name, database string) (*influxql.Privilege, err
 func (data *Data) Clone() *Data {
 	other := *data
 
+	// Copy the node lists: node commands update them in place on the copy.
+	if data.MetaNodes != nil {
+		other.MetaNodes = make([]NodeInfo, len(data.MetaNodes))
+		copy(other.MetaNodes, data.MetaNodes)
+	}
+	if data.DataNodes != nil {
+		other.DataNodes = make([]NodeInfo, len(data.DataNodes))
+		copy(other.DataNodes, data.DataNodes)
+	}
+
 	other.Databases = data.CloneDatabases()
 	other.Users = data.CloneUsers()
 
@@ -1745,6 +1755,12 @@ func (rpi RetentionPolicyInfo) clone() RetentionPolicyInfo {
 		for i := range rpi.ShardGroups {
 			other.ShardGroups[i] = rpi.ShardGroups[i].clone()
 		}
+	}
+
+	// Copy subscriptions: dropping one shifts the slice's elements in place.
+	if rpi.Subscriptions != nil {
+		other.Subscriptions = make([]SubscriptionInfo, len(rpi.Subscriptions))
+		copy(other.Subscriptions, rpi.Subscriptions)
 	}
 
 	return other
